@@ -12,7 +12,7 @@ from typing import Any, Callable, Dict, List, Optional
 import z3
 
 from . import REPO
-from .engine import (ClassTable, Ctx, Env, Interp, Obligation, PathEnd, PyRaise, ReturnSignal, Unsupported, ExcVal, zbool)
+from .engine import (ClassTable, Ctx, Env, Interp, Obligation, PathEnd, PyRaise, RestartPath, ReturnSignal, Unsupported, ExcVal, zbool)
 
 _module_cache: Dict[str, tuple] = {}
 _class_table: Optional[ClassTable] = None
@@ -95,6 +95,7 @@ class Unit:
     replayer: str = ""  # "module:function" under /verif/replayers, run with /venv/bin/python
     doc: str = ""
     max_paths: int = 5000
+    split: int = 0  # >0: the first decision of setup() has this many options; each is explored by its own worker process
     refute_hints: tuple = ()  # SMT-LIB assertions tried on undecided obligations to obtain a counter-model (size bounds)
 
     @property
@@ -128,7 +129,7 @@ class _Recording(dict):
         return super().__getitem__(k)
 
 
-def run_unit(unit: Unit) -> UnitResult:
+def run_unit(unit: Unit, forced: Optional[int] = None) -> UnitResult:
     mod, qual = unit.target.split(":")
     loc = find_function(mod, qual)
     if loc is None:
@@ -137,17 +138,21 @@ def run_unit(unit: Unit) -> UnitResult:
     seg = ast.get_source_segment(src, fn) or ""
     res = UnitResult(unit, found=True, file=os.path.relpath(path, REPO), lines=(fn.lineno, fn.end_lineno), src_hash=hashlib.sha256(seg.encode()).hexdigest()[:16])
     ctx = Ctx(unit.name, class_table())
+    ctx.forced_first = forced
     used = set()
     t0 = time.time()
     canary_done = False
+    impure = set()
+    restarts = 0
     while True:
+        n_obl_at_start = len(ctx.obligations)
         try:
             st: Setup = unit.setup(ctx)
             ctx.watch = dict(st.watch)
             if not canary_done:
                 ctx.oblige("canary", "hypotheses-consistent", False)
                 canary_done = True
-            interp = Interp(ctx, fn, calls=_Recording(st.calls, used), consts=st.consts, loops=st.loops, cms=_Recording(st.cms, used), hooks=st.hooks, symcall=st.symcall, drop_calls=st.drop_calls)
+            interp = Interp(ctx, fn, calls=_Recording(st.calls, used), consts=st.consts, loops=st.loops, cms=_Recording(st.cms, used), hooks=st.hooks, symcall=st.symcall, drop_calls=st.drop_calls, impure=impure)
             env = Env(st.env)
             try:
                 interp.exec_block(fn.body, env)
@@ -165,6 +170,14 @@ def run_unit(unit: Unit) -> UnitResult:
                 unit.post(ctx, st, result)
             else:
                 unit.raises(ctx, st, result)
+        except RestartPath:
+            del ctx.obligations[n_obl_at_start:]
+            restarts += 1
+            if restarts > 10000:
+                res.undecided.append({"unit": unit.name, "why": "too many path restarts"})
+                break
+            ctx._reset_path()
+            continue
         except PathEnd:
             pass
         except Unsupported as u:
@@ -204,3 +217,63 @@ def no_raise(ctx, st, exc: ExcVal):
 
 def nothing(ctx, st, result):
     pass
+
+
+def serialize(res: UnitResult, tag: str = "") -> dict:
+    """Plain-data form of a unit result (crosses the process boundary; no z3 objects)."""
+    obs = []
+    for ob in res.obligations:
+        name = ob.name if not tag else ob.name.rsplit("/p", 1)[0] + f"/{tag}p{ob.path}"
+        watch = {k: (v.sexpr() if hasattr(v, "sexpr") else str(v)) for k, v in (ob.meta.get("watch") or {}).items()}
+        meta = {k: v for k, v in ob.meta.items() if k not in ("watch",)}
+        obs.append({"name": name, "kind": ob.kind, "path": ob.path, "smt2": to_smt2(ob), "watch": watch, "meta": meta})
+    return {
+        "found": res.found, "file": res.file, "lines": list(res.lines), "src_hash": res.src_hash, "obligations": obs, "undecided": res.undecided,
+        "paths": res.paths, "covers": res.covers, "calls_used": res.calls_used, "gen_s": res.gen_s, "error": res.error,
+    }
+
+
+def _worker(task):
+    import importlib
+    import sys
+    from . import VERIF
+    if VERIF not in sys.path:
+        sys.path.insert(0, VERIF)
+    modname, idx, forced = task
+    spec = importlib.import_module(modname)
+    unit = spec.UNITS[idx]
+    try:
+        res = run_unit(unit, forced)
+        return serialize(res, tag=(f"s{forced}" if forced is not None else ""))
+    except Exception:
+        return {"found": True, "file": "", "lines": [0, 0], "src_hash": "", "obligations": [], "paths": 0, "covers": {}, "calls_used": [], "gen_s": 0.0,
+                "undecided": [{"unit": unit.name, "why": "VC generator crashed: " + traceback.format_exc()[-1500:]}], "error": "crash"}
+
+
+def run_units_parallel(modname: str, units_list: List[Unit], workers: int = 16) -> List[dict]:
+    """Run every unit (and every scenario of split units) in worker processes; merge per unit."""
+    import multiprocessing as mp
+    tasks = []
+    for i, u in enumerate(units_list):
+        if u.split:
+            tasks.extend((modname, i, f) for f in range(u.split))
+        else:
+            tasks.append((modname, i, None))
+    if not tasks:
+        return []
+    with mp.get_context("fork").Pool(min(workers, len(tasks))) as pool:
+        parts = pool.map(_worker, tasks, chunksize=1)
+    merged: Dict[int, dict] = {}
+    for (m, i, f), part in zip(tasks, parts):
+        if i not in merged:
+            merged[i] = part
+            continue
+        tgt = merged[i]
+        tgt["obligations"].extend(o for o in part["obligations"] if o["kind"] != "canary")
+        tgt["undecided"].extend(part["undecided"])
+        tgt["paths"] += part["paths"]
+        for k, v in part["covers"].items():
+            tgt["covers"][k] = tgt["covers"].get(k, 0) + v
+        tgt["calls_used"] = sorted(set(tgt["calls_used"]) | set(part["calls_used"]))
+        tgt["gen_s"] = max(tgt["gen_s"], part["gen_s"])
+    return [merged[i] for i in range(len(units_list))]
